@@ -1050,12 +1050,24 @@ func init() {
 		},
 		"net/url.QueryUnescape": func(in *Interp, st *State, fr *Frame, fn *ssa.Function, args []Value) Value {
 			if ps, ok := structArg(args); ok {
-				for _, x := range ps {
+				// escapes (%XX, +) lie inside literal parts: unescape each literal on its own
+				np := make([]StrPart, len(ps))
+				for i, x := range ps {
+					np[i] = x
 					if x.Num == nil && strings.ContainsAny(x.Lit, "%+") {
-						panic(unsupported("url.QueryUnescape of a structured string with escapes"))
+						if strings.HasSuffix(x.Lit, "%") || (len(x.Lit) >= 2 && x.Lit[len(x.Lit)-2] == '%') {
+							panic(unsupported("url.QueryUnescape: escape sequence next to a symbolic number"))
+						}
+						u, err := url.QueryUnescape(x.Lit)
+						if err != nil {
+							site := in.posOf(fr.Block.Instrs[fr.PC], fr)
+							id := st.alloc(OpaqueErr{Site: site, Msg: err.Error()})
+							return TupleV{StrV{}, IfaceV{T: opaqueErrType, V: PtrV{Obj: id}}}
+						}
+						np[i] = StrPart{Lit: u}
 					}
 				}
-				return TupleV{args[0], IfaceV{}}
+				return TupleV{normParts(np), IfaceV{}}
 			}
 			r, err := url.QueryUnescape(mustStr(args[0], "url.QueryUnescape"))
 			if err != nil {
